@@ -18,7 +18,9 @@ WritePaths == {"writer", "writer-appended", "export", "export-filtered", "compre
 \* "index": the index is a permutation (reversed); "indexoffset": consecutive
 \* values that do not start at 1 (a fragment cut out of a larger file)
 Corruptions == {"len", "roi", "unknown", "missing", "index", "indexoffset", "chcount", "lasers",
-                "samples", "extlink", "flowzero", "pixneg", "chwzero", "flmissing"}
+                "samples", "extlink", "flowzero", "pixneg", "chwzero", "flmissing",
+                \* "nopower": a counted laser without its power key
+                "nopower"}
 \* corruptions of the metadata survive a copy of the file - except for the keys
 \* that the writer derives from the data whenever it closes a file (ROI size,
 \* samples per event): a copy repairs those, which is not held against it
@@ -29,7 +31,7 @@ Class(c) == CASE c = "len" -> "feature length differs from the event count"
               [] c \in {"missing", "flmissing"} -> "mandatory metadata missing"
               [] c \in {"index", "indexoffset"} -> "index does not enumerate the events"
               [] c = "chcount" -> "fluorescence channel count contradicts the data"
-              [] c = "lasers" -> "laser count contradicts the metadata"
+              [] c \in {"lasers", "nopower"} -> "laser count contradicts the metadata"
               [] c = "samples" -> "samples per event contradict the trace length"
               [] c = "extlink" -> "external link"
               [] c \in {"flowzero", "pixneg", "chwzero"} -> "non-positive set-up value"
@@ -57,17 +59,18 @@ Init == /\ path \in WritePaths
               /\ path \in {"writer", "export", "export-filtered", "compress", "split-part"}
         /\ fl \in FlChannels
         /\ fl # "fl1" =>
-              /\ corr \subseteq {"chcount", "lasers", "flmissing"} /\ corr # {}
+              /\ corr \subseteq {"chcount", "lasers", "flmissing", "nopower"} /\ corr # {}
               /\ copied = "no" /\ content = FullContent
               /\ path \in {"writer", "export", "compress"}
         \* an ROI contradiction needs image-shaped data
         /\ ("roi" \in corr) => content # {}
         \* corruptions need the respective data: a condensed file has no image / trace
-        /\ (path = "condense") => corr \cap {"roi", "samples", "chcount", "lasers"} = {}
+        /\ (path = "condense") => corr \cap {"roi", "samples", "chcount", "lasers", "nopower"} = {}
         /\ (copied # "no") => corr \subseteq MetaCorruptions
         \* two corruptions of the same key do not both show
         /\ ~({"chwzero", "missing"} \subseteq corr)
         /\ ~({"index", "indexoffset"} \subseteq corr)
+        /\ ~({"lasers", "nopower"} \subseteq corr)
 Next == UNCHANGED <<path, corr, copied, content, fl>>
 
 ExpectedClasses == {Class(c) : c \in corr}
